@@ -29,7 +29,8 @@ def walkerOf (x : Walk.CfiIn) (instr : Nat) (fwd : List (Cfi.Name × UInt64)) : 
     callee := x.arch.registers.filterMap fun r => (x.reg r).map fun v => (utf8 r, UInt64.ofNat v)
     memBase := x.mem.base
     mem := x.mem.bytes.toList
-    fwd := fwd }
+    fwd := fwd
+    be := x.mem.be }
 
 /-! ## names -/
 
@@ -341,6 +342,67 @@ theorem leVal_take_drop (m : Walk.Mem) (w off : Nat) (h : off + w ≤ m.bytes.si
       simp [h']
     rw [this]
 
+theorem beVal_lt (l : Cfi.Bytes) : Cfi.beVal l < 256 ^ l.length := by
+  induction l with
+  | nil => simp [Cfi.beVal]
+  | cons b l ih =>
+    have hb := b.toNat_lt
+    have hmul : b.toNat * 256 ^ l.length ≤ 255 * 256 ^ l.length := Nat.mul_le_mul_right _ (by omega)
+    simp only [Cfi.beVal, List.length_cons, Nat.pow_succ]
+    omega
+
+theorem beVal_take_drop (m : Walk.Mem) (w off : Nat) (h : off + w ≤ m.bytes.size) :
+    Cfi.beVal ((m.bytes.toList.drop off).take w) = m.beAt off w := by
+  induction w generalizing off with
+  | zero => simp [Cfi.beVal, Walk.Mem.beAt]
+  | succ w ih =>
+    have hlt : off < m.bytes.toList.length := by simp; omega
+    rw [List.drop_eq_getElem_cons hlt, List.take_succ_cons]
+    simp only [Cfi.beVal, Walk.Mem.beAt]
+    rw [ih (off + 1) (by omega)]
+    have : m.byte off = (m.bytes.toList[off]).toNat := by
+      unfold Walk.Mem.byte
+      have h' : off < m.bytes.size := by omega
+      simp [h']
+    have hlen : (List.take w (List.drop (off + 1) m.bytes.toList)).length = w := by
+      rw [List.length_take, List.length_drop]; simp; omega
+    rw [this, hlen]
+
+/-- the word the C06 `Walker` of a walker-model memory reads, in that memory's byte order -/
+theorem wordVal_take_drop (m : Walk.Mem) (w off : Nat) (h : off + w ≤ m.bytes.size) :
+    (if m.be then Cfi.beVal ((m.bytes.toList.drop off).take w) else Cfi.leVal ((m.bytes.toList.drop off).take w)) =
+      m.wordAt off w := by
+  unfold Walk.Mem.wordAt
+  rw [leVal_take_drop _ _ _ h, beVal_take_drop _ _ _ h]
+
+theorem wordAt_lt (m : Walk.Mem) (off w : Nat) : m.wordAt off w < 256 ^ w := by
+  have hb : ∀ off, m.byte off < 256 := fun off => by unfold Walk.Mem.byte; exact UInt8.toNat_lt _
+  have hbe : ∀ w off, m.beAt off w < 256 ^ w := by
+    intro w
+    induction w with
+    | zero => intro off; simp [Walk.Mem.beAt]
+    | succ w ih =>
+      intro off
+      have h1 := hb off
+      have := ih (off + 1)
+      have hmul : m.byte off * 256 ^ w ≤ 255 * 256 ^ w := Nat.mul_le_mul_right _ (by omega)
+      simp only [Walk.Mem.beAt, Nat.pow_succ]
+      omega
+  have hle : ∀ w off, m.leAt off w < 256 ^ w := by
+    intro w
+    induction w with
+    | zero => intro off; simp [Walk.Mem.leAt]
+    | succ w ih =>
+      intro off
+      have h1 := hb off
+      have := ih (off + 1)
+      simp only [Walk.Mem.leAt, Nat.pow_succ]
+      omega
+  unfold Walk.Mem.wordAt
+  split
+  · exact hbe w off
+  · exact hle w off
+
 theorem ptrOf_cases (a : Walk.Arch) : (ptrOf a = 4 ∧ a.regMax = U32MAX) ∨ (ptrOf a = 8 ∧ a.regMax = U64MAX) := by
   cases a <;> simp [ptrOf, Walk.Arch.regMax, U32MAX, U64MAX]
 
@@ -354,13 +416,11 @@ theorem deref_walkerOf (x : Walk.CfiIn) (instr : Nat) (fwd : List (Cfi.Name × U
   · simp only [hb, if_false]
     by_cases hfit : a.toNat - x.mem.base + ptrOf x.arch ≤ x.mem.bytes.size
     · simp only [hfit, if_true, Option.map_some, Option.some.injEq]
-      rw [leVal_take_drop _ _ _ hfit, u64_toNat_ofNat_lt]
-      have := leVal_lt ((x.mem.bytes.toList.drop (a.toNat - x.mem.base)).take (ptrOf x.arch))
-      rw [leVal_take_drop _ _ _ hfit] at this
-      have hlen : ((x.mem.bytes.toList.drop (a.toNat - x.mem.base)).take (ptrOf x.arch)).length ≤ 8 := by
-        rw [List.length_take]
+      rw [wordVal_take_drop _ _ _ hfit, u64_toNat_ofNat_lt]
+      have := wordAt_lt x.mem (a.toNat - x.mem.base) (ptrOf x.arch)
+      have hlen : ptrOf x.arch ≤ 8 := by
         rcases ptrOf_cases x.arch with ⟨h, _⟩ | ⟨h, _⟩ <;> omega
-      calc x.mem.leAt (a.toNat - x.mem.base) (ptrOf x.arch) < 256 ^ _ := this
+      calc x.mem.wordAt (a.toNat - x.mem.base) (ptrOf x.arch) < 256 ^ _ := this
         _ ≤ 256 ^ 8 := Nat.pow_le_pow_right (by omega) hlen
         _ = 2 ^ 64 := by decide
     · simp [hfit]
